@@ -188,6 +188,79 @@ theorem gasp_read_write (ext : Ext) (o : Obj) (bytes rest : Bytes) (view : View)
       exact hcount)
     he (fun h => absurd h (by decide))
 
+open FontVerif.Gen.WriteProgs in
+/-- `hmtx` (a reader with external arguments): for **every** `number_of_h_metrics` (from `hhea`) and `num_glyphs` (from
+`maxp`), every value whose long-metric array has `number_of_h_metrics` entries and whose bearing array has
+`num_glyphs - number_of_h_metrics` (saturating) entries reads back field by field -/
+theorem hmtx_read_write (ext : Ext) (numberOfHMetrics numGlyphs : Nat) (o : Obj) (bytes rest : Bytes) (view : View)
+    (hlong : ∀ xs, o.get 0 = .arr xs → xs.length = numberOfHMetrics)
+    (hbear : ∀ xs, o.get 1 = .arr xs → xs.length = numGlyphs - numberOfHMetrics)
+    (he : emit ext o hmtx_Hmtx_w [(argBase, .num numberOfHMetrics), (argBase + 1, .num numGlyphs)] = some (bytes, view)) :
+    parse hmtx_Hmtx_r [(argBase, .num numberOfHMetrics), (argBase + 1, .num numGlyphs)] (bytes ++ rest) =
+      some (view, rest) := by
+  have h0 := emit_numAt_arg ext o _ _ bytes view argBase he (by decide)
+  have h1 := emit_numAt_arg ext o _ _ bytes view (argBase + 1) he (by decide)
+  refine read_write_args ext hmtx_Hmtx_assumes _ _ o _ bytes rest view hmtx_Hmtx_compat_under ?_ he
+    (fun h => absurd h (by decide))
+  intro x hx
+  simp only [hmtx_Hmtx_assumes, List.mem_cons, List.mem_nil_iff, or_false] at hx
+  rcases hx with hx | hx
+  · subst hx
+    intro xs hxs
+    rw [hlong xs hxs]
+    simp only [NExpr.eval]
+    rw [show (1000 : Nat) = argBase from rfl, h0]
+    simp [numAt, List.lookup]
+  · subst hx
+    intro xs hxs
+    rw [hbear xs hxs]
+    simp only [NExpr.eval]
+    rw [show (1001 : Nat) = argBase + 1 from rfl, show (1000 : Nat) = argBase from rfl, h0, h1]
+    simp [numAt, List.lookup, argBase]
+
+open FontVerif.Gen.WriteProgs in
+/-- GPOS `BaseArray` (computed-size records + an external argument): for **every** `mark_class_count` the parent
+`MarkBasePosFormat1` passes down, every value whose base records all have exactly `mark_class_count` anchor offsets
+(the hypothesis the generated writer does not establish) reads back: the count, and every record with every offset -/
+theorem base_array_read_write (ext : Ext) (markClassCount : Nat) (o : Obj) (bytes rest : Bytes) (view : View)
+    (hrec : ∀ xs, o.get 1 = .arr xs → ∀ x ∈ xs, x.length = markClassCount)
+    (he : emit ext o gpos_BaseArray_w [(argBase, .num markClassCount)] = some (bytes, view)) :
+    parse gpos_BaseArray_r [(argBase, .num markClassCount)] (bytes ++ rest) = some (view, rest) := by
+  have h0 := emit_numAt_arg ext o _ _ bytes view argBase he (by decide)
+  refine read_write_args ext gpos_BaseArray_assumes _ _ o _ bytes rest view gpos_BaseArray_compat_under ?_ he
+    (fun h => absurd h (by decide))
+  intro x hx
+  simp only [gpos_BaseArray_assumes, List.mem_cons, List.mem_nil_iff, or_false] at hx
+  subst hx
+  intro xs hxs y hy
+  rw [hrec xs hxs y hy]
+  have hl : ∀ n, (repGroup n [2]).length = n := by
+    intro n
+    induction n with
+    | zero => rfl
+    | succ k ih => simp [repGroup, ih]
+  simp only [evalSegs, NExpr.eval, List.append_nil, hl]
+  rw [show (1000 : Nat) = argBase from rfl, h0]
+  simp [numAt, List.lookup]
+
+open FontVerif.Gen.WriteProgs in
+/-- `ClassDef` (a format enum): whichever variant is written, the generated reader's `match format` selects the same
+variant and returns every field as written -/
+theorem class_def_read_write (ext : Ext) (v : Variant) (hv : v ∈ layout_ClassDef_variants) (o : Obj)
+    (bytes rest : Bytes) (view : View)
+    (he : emit ext o v.w [] = some (bytes, view)) :
+    parseEnum 2 layout_ClassDef_variants [] (bytes ++ rest) = some (v.fmt, view, rest) := by
+  have hnone : v.as = [] ∧ usesRest v.r = false := by
+    simp only [layout_ClassDef_variants, List.mem_cons, List.mem_nil_iff, or_false] at hv
+    rcases hv with hv | hv <;> subst hv <;> exact ⟨rfl, by decide⟩
+  refine enum_read_write ext 2 _ v o [] bytes rest view layout_ClassDef_dispatch hv ?_ he ?_
+  · intro x hx
+    rw [hnone.1] at hx
+    cases hx
+  · intro h
+    rw [hnone.2] at h
+    cases h
+
 /-! ## non-vacuity -/
 
 /-- a table with a version, a count, a counted array of 2-field records and a version-gated trailing scalar -/
@@ -233,5 +306,71 @@ example : compat Gen.WriteProgs.gasp_Gasp_w Gen.WriteProgs.gasp_Gasp_r = false :
 example : (emit (fun _ _ => 0) [(0, .num 1), (1, .num 1), (2, .arr [[8, 2], [65535, 3]])]
       Gen.WriteProgs.gasp_Gasp_w []).map (fun p => parse Gen.WriteProgs.gasp_Gasp_r [] p.1) =
     some (some ([(2, .arr [[8, 2]]), (1, .num 1), (0, .num 1)], [255, 255, 0, 3])) := by decide
+
+/-! ### non-vacuity of the round-4 features -/
+
+/-- a table read with one external argument `n` (id `argBase`): a count, then `count` records of `1 + n` 16-bit
+scalars each (a fixed glyph id followed by `n` offsets) -/
+def exWV : List WF := [⟨0, none, .scalar (.count 1 1 0) 2⟩, ⟨1, none, .arrayV [2] 2 none⟩]
+def exRV : List RF := [⟨0, none, .scalar 2⟩, ⟨1, none, .arrayV (.affine 0 1 0) [(.lit 1, [2]), (.field 1000, [2])]⟩]
+def exAV : List Assume := [.elemLen 1 [(.lit 1, [2]), (.field 1000, [2])]]
+example : compatU exAV exWV exRV = true := by decide
+/-- the hypotheses of `read_write_args` are satisfiable: argument 2, two records of 1 + 2 scalars -/
+example : emit (fun _ _ => 0) [(1, .arr [[7, 1, 2], [8, 3, 4]])] exWV [(1000, .num 2)] =
+    some ([0, 2, 0, 7, 0, 1, 0, 2, 0, 8, 0, 3, 0, 4], [(1, .arr [[7, 1, 2], [8, 3, 4]]), (0, .num 2), (1000, .num 2)]) := by
+  decide
+example : parse exRV [(1000, .num 2)] [0, 2, 0, 7, 0, 1, 0, 2, 0, 8, 0, 3, 0, 4, 9] =
+    some ([(1, .arr [[7, 1, 2], [8, 3, 4]]), (0, .num 2), (1000, .num 2)], [9]) := by decide
+example : Assume.holds [(1, .arr [[7, 1, 2], [8, 3, 4]])] [(1, .arr [[7, 1, 2], [8, 3, 4]]), (0, .num 2), (1000, .num 2)]
+    (.elemLen 1 [(.lit 1, [2]), (.field 1000, [2])]) := by
+  intro xs hxs x hx
+  have : xs = [[7, 1, 2], [8, 3, 4]] := by
+    have h : Obj.get [(1, Val.arr [[7, 1, 2], [8, 3, 4]])] 1 = .arr [[7, 1, 2], [8, 3, 4]] := by decide
+    rw [h] at hxs
+    injection hxs with hxs
+    exact hxs.symm
+  subst this
+  simp only [List.mem_cons, List.mem_nil_iff, or_false] at hx
+  rcases hx with hx | hx <;> subst hx <;> decide
+/-- the named hypothesis is necessary: with argument 1 the same value still compiles (the writer does not look at the
+argument), but the reader cuts the 12 record bytes into 2-scalar records and returns something else -/
+example : parse exRV [(1000, .num 1)] [0, 2, 0, 7, 0, 1, 0, 2, 0, 8, 0, 3, 0, 4] =
+    some ([(1, .arr [[7, 1], [2, 8]]), (0, .num 2), (1000, .num 1)], [0, 3, 0, 4]) := by decide
+/-- `compatU` rejects: a missing element-size hypothesis, a writer whose variable part has another scalar width, a
+reader layout that is not "prefix then tail-width scalars", an element layout that reads a field written later -/
+example : compatU [] exWV exRV = false := by decide
+example : compatU exAV [⟨0, none, .scalar (.count 1 1 0) 2⟩, ⟨1, none, .arrayV [2] 4 none⟩] exRV = false := by decide
+example : compatU [.elemLen 1 [(.field 1000, [2]), (.lit 1, [4])]] exWV
+    [⟨0, none, .scalar 2⟩, ⟨1, none, .arrayV (.affine 0 1 0) [(.field 1000, [2]), (.lit 1, [4])]⟩] = false := by decide
+example : compatU [.elemLen 1 [(.field 2, [2])]]
+    [⟨0, none, .scalar (.count 1 1 0) 2⟩, ⟨1, none, .arrayV [] 2 none⟩, ⟨2, none, .scalar .field 2⟩]
+    [⟨0, none, .scalar 2⟩, ⟨1, none, .arrayV (.affine 0 1 0) [(.field 2, [2])]⟩, ⟨2, none, .scalar 2⟩] = false := by decide
+/-- count expressions: `transforms::add(n, 1)` of an argument; the hypothesis names the length -/
+example : compatU [.lenIsExpr 0 (.add (.field 1000) (.lit 1))] [⟨0, none, .array [4] none⟩]
+    [⟨0, none, .array (.expr (.add (.field 1000) (.lit 1))) [4]⟩] = true := by decide
+example : compatU [] [⟨0, none, .array [4] none⟩]
+    [⟨0, none, .array (.expr (.add (.field 1000) (.lit 1))) [4]⟩] = false := by decide
+/-- the transcribed count functions on sample values (`DeltaFormat::value_count`: 2-bit deltas for sizes 9..=16 are 8
+values in one word; `EntryFormat::map_size`; `delta_sets_len` with long words; `tuple_len`) -/
+example : CFn.eval .valueCount 1 9 16 = 1 ∧ CFn.eval .valueCount 3 9 11 = 2 ∧ CFn.eval .valueCount 0x8000 9 16 = 0 ∧
+    CFn.eval .mapSize 0x31 10 0 = 40 ∧ CFn.eval .deltaSetsLen 3 0x8001 4 = 30 ∧ CFn.eval .tupleLen 0xC000 5 1 = 5 := by
+  decide
+/-- length-prefixed elements (`VarLenArray`): two segment maps with 1 and 2 (from, to) pairs -/
+example : emit (fun _ _ => 0) [(1, .arr [[5, 6], [1, 2, 3, 4]])]
+      [⟨0, none, .scalar (.count 1 1 0) 2⟩, ⟨1, none, .arrayL 2 [2, 2]⟩] [] =
+    some ([0, 2, 0, 1, 0, 5, 0, 6, 0, 2, 0, 1, 0, 2, 0, 3, 0, 4], [(1, .arr [[5, 6], [1, 2, 3, 4]]), (0, .num 2)]) := by
+  decide
+example : parse [⟨0, none, .scalar 2⟩, ⟨1, none, .arrayL (.affine 0 1 0) 2 [2, 2]⟩] []
+      [0, 2, 0, 1, 0, 5, 0, 6, 0, 2, 0, 1, 0, 2, 0, 3, 0, 4, 7] =
+    some ([(1, .arr [[5, 6], [1, 2, 3, 4]]), (0, .num 2)], [7]) := by decide
+/-- format enums: the reader dispatches on the written constant; two variants with the same constant, or a variant
+that does not start with its constant, are rejected -/
+def exV1 : Variant := ⟨1, [⟨0, none, .scalar (.const 1) 2⟩, ⟨1, none, .scalar .field 2⟩], [⟨0, none, .scalar 2⟩, ⟨1, none, .scalar 2⟩], []⟩
+def exV2 : Variant := ⟨2, [⟨0, none, .scalar (.const 2) 2⟩, ⟨1, none, .scalar .field 4⟩], [⟨0, none, .scalar 2⟩, ⟨1, none, .scalar 4⟩], []⟩
+example : enumCompat 2 [exV1, exV2] = true := by decide
+example : parseEnum 2 [exV1, exV2] [] [0, 2, 0, 0, 1, 0, 9] = some (2, [(1, .num 256), (0, .num 2)], [9]) := by decide
+example : parseEnum 2 [exV1, exV2] [] [0, 3, 0, 0] = none := by decide
+example : enumCompat 2 [exV1, { exV2 with fmt := 1 }] = false := by decide
+example : enumCompat 2 [exV1, ⟨2, [⟨0, none, .scalar .field 2⟩], [⟨0, none, .scalar 2⟩], []⟩] = false := by decide
 
 end FontVerif.C04
